@@ -9,13 +9,22 @@
      `run`  -> the model (`Renderer.renderTrace`): `<number of blocks> # ` then blocks separated by `|` (last = tail), frames by `,`;
                ` ! <error>` appended if a call raised (blocks before it are kept)
      `spec` -> `RenderSpec.out` as one block
+   runts|spects ; cfg … ; taps … ; parts … ; x … ;   (the renderer with track processors, `Model/RendererTS.lean`)
+     O <spec> ; b … ; …       D <spec> ; b … ; …       H <n> <spec>*n ; b … ; …
+     spec (prefix form, as in the C20 driver): `D <i>` | `S` | `M <n> <spec>*n` | `G <rat> <spec>` | `X <rat|-> <rat|-> <spec>`
+       (`X gain delay_ms input`)
+     `runts`  -> `RendererTS.renderTraceTS` (same output format; a track-processor exception is ` ! track-<kind>`)
+     `spects` -> `RendererTS.outTS` as one block
    fir ; cfg <B> <nch> ; taps <L> <L*nch rats> ; x <rats, frame major, multiple of B frames>
           -> successive `Fir.step` outputs (one block)
    vbs ; cfg <B> <nch> ; taps ... ; parts <len...> ; x <rats> -> `Vbs.run` over the partition
    `bad-op` for a malformed line. -/
 import Earverif.Model.RenderSpec
+import Earverif.Model.RendererTS
 import Earverif.Driver.Util
 open Earverif.Stream Earverif.Timeline Earverif.Renderer Earverif.Driver
+open Earverif.RendererTS
+open Earverif.TrackSpec (Spec)
 
 def parseRat? (s : String) : Option Rat :=
   match s.splitOn "/" with
@@ -162,6 +171,137 @@ def answerRender (mode : String) (secs : List (List String)) : Option String :=
       some (showFrames (Earverif.RenderSpec.out cfg objs dss hoas frames))
   | _ => none
 
+
+/-! ### items with track specs -/
+
+/-- recursive descent with fuel; returns the spec and the unread tokens (same syntax as the C20 driver) -/
+def parseSpec : Nat → List String → Option (Spec Rat × List String)
+  | 0, _ => none
+  | fuel + 1, ws =>
+    match ws with
+    | "S" :: rest => some (.silent, rest)
+    | "D" :: i :: rest => do some (.direct (← i.toInt?), rest)
+    | "G" :: g :: rest => do
+      let g ← parseRat? g
+      let (t, rest) ← parseSpec fuel rest
+      some (.gain t g, rest)
+    | "X" :: g :: d :: rest => do
+      let g ← parseOptRat? g
+      let d ← parseOptRat? d
+      let (t, rest) ← parseSpec fuel rest
+      some (.matrix t g d, rest)
+    | "M" :: n :: rest => do
+      let n ← n.toNat?
+      let rec kids (fuel : Nat) (n : Nat) (ws : List String) : Option (List (Spec Rat) × List String) :=
+        match n with
+        | 0 => some ([], ws)
+        | n + 1 => do
+          let (t, ws) ← parseSpec fuel ws
+          let (ts, ws) ← kids fuel n ws
+          some (t :: ts, ws)
+      let (ts, rest) ← kids fuel n rest
+      some (.mix ts, rest)
+    | _ => none
+
+/-- `n` specs one after the other, nothing left over -/
+def parseSpecsExact (n : Nat) (ws : List String) : Option (List (Spec Rat)) :=
+  let rec go (n : Nat) (ws : List String) : Option (List (Spec Rat)) :=
+    match n with
+    | 0 => if ws.isEmpty then some [] else none
+    | n + 1 => do
+      let (t, ws) ← parseSpec (ws.length + 1) ws
+      (t :: ·) <$> go n ws
+  go n ws
+
+inductive RawItemTS where
+  | obj (s : Spec Rat) (bs : List RawBlock)
+  | ds (s : Spec Rat) (bs : List RawBlock)
+  | hoa (ss : List (Spec Rat)) (bs : List RawBlock)
+
+def parseItemsTS? (secs : List (List String)) : Option (List RawItemTS) := do
+  let step (acc : List RawItemTS) (ws : List String) : Option (List RawItemTS) :=
+    match ws with
+    | "O" :: sp => do
+      match ← parseSpecsExact 1 sp with
+      | [t] => some (RawItemTS.obj t [] :: acc)
+      | _ => none
+    | "D" :: sp => do
+      match ← parseSpecsExact 1 sp with
+      | [t] => some (RawItemTS.ds t [] :: acc)
+      | _ => none
+    | "H" :: nt :: sp => do
+      let n ← nt.toNat?
+      some (RawItemTS.hoa (← parseSpecsExact n sp) [] :: acc)
+    | "b" :: _ => do
+      let blk ← parseBlock? ws
+      match acc with
+      | .obj t bs :: r => some (.obj t (bs ++ [blk]) :: r)
+      | .ds t bs :: r => some (.ds t (bs ++ [blk]) :: r)
+      | .hoa t bs :: r => some (.hoa t (bs ++ [blk]) :: r)
+      | [] => none
+    | _ => none
+  let acc ← secs.foldlM step []
+  some acc.reverse
+
+def buildItemsTS? (n : Nat) (items : List RawItemTS) :
+    Option (List (ObjItemTS (Frame n)) × List (DsItemTS (Frame n)) × List (HoaItemTS (Frame n))) :=
+  items.foldrM (init := ([], [], [])) fun it (os, ds, hs) =>
+    match it with
+    | .obj t bs => do
+      let blocks ← bs.mapM fun r => do
+        if r.g.length ≠ 2 * n then none
+        some (r.meta ((← toVec? n (r.g.take n)), (← toVec? n (r.g.drop n))))
+      some (⟨t, blocks⟩ :: os, ds, hs)
+    | .ds t bs => do
+      let blocks ← bs.mapM fun r => do some (r.meta (← toVec? n r.g))
+      some (os, ⟨t, blocks⟩ :: ds, hs)
+    | .hoa ss bs => do
+      let blocks ← bs.mapM fun r => do
+        let cols ← vecs? n r.g
+        if cols.length ≠ ss.length then none
+        some (r.meta cols)
+      some (os, ds, ⟨ss, blocks⟩ :: hs)
+
+def showTrackErr : Earverif.TrackSpec.Err → String
+  | .index => "track-index"
+  | .negDelay => "track-negDelay"
+  | .sampleRate => "track-sampleRate"
+  | .notSimplified => "track-notSimplified"
+  | .emptyStack => "track-emptyStack"
+
+def showErrTS : ErrTS → String
+  | .track e => showTrackErr e
+  | .render e => showErr e
+
+def showTraceTS {n : Nat} (r : List (List (Frame n)) × Option ErrTS) : String :=
+  s!"{r.1.length} # " ++ String.intercalate " | " (r.1.map showFrames) ++
+    (match r.2 with | some e => " ! " ++ showErrTS e | none => "")
+
+def answerRenderTS (mode : String) (secs : List (List String)) : Option String :=
+  match secs with
+  | ["cfg", sr, b, nout, nin] :: ("taps" :: l :: taps) :: ("parts" :: parts) :: ("x" :: xs) :: items => do
+    let sr ← sr.toNat?
+    let B ← b.toNat?
+    let n ← nout.toNat?
+    let nin ← nin.toNat?
+    let L ← l.toNat?
+    let taps ← vecs? n (← taps.mapM parseRat?)
+    if taps.length ≠ L then none
+    let parts ← parts.mapM String.toNat?
+    let xi ← xs.mapM String.toInt?
+    let frames ← chunks? nin (xi.map fun (i : Int) => (i : Rat))
+    let frames := if nin = 0 then List.replicate parts.sum [] else frames
+    let blocks ← splitBy? parts frames
+    let (objs, dss, hoas) ← buildItemsTS? n (← parseItemsTS? items)
+    let cfg : Cfg (Frame n) := ⟨sr, B, taps, nin⟩
+    if mode = "runts" then
+      match RStateTS.init cfg objs dss hoas with
+      | .error e => some (showTraceTS (n := n) ([], some (.track e)))
+      | .ok st0 => some (showTraceTS (renderTraceTS cfg st0 blocks))
+    else
+      some (showFrames (outTS cfg objs dss hoas frames))
+  | _ => none
+
 def answerFir (secs : List (List String)) : Option String :=
   match secs with
   | [["cfg", b, nch], "taps" :: _ :: taps, "x" :: xs] => do
@@ -196,6 +336,8 @@ def answer (line : String) : String :=
   let r := match secs with
     | ["run"] :: rest => answerRender "run" rest
     | ["spec"] :: rest => answerRender "spec" rest
+    | ["runts"] :: rest => answerRenderTS "runts" rest
+    | ["spects"] :: rest => answerRenderTS "spects" rest
     | ["fir"] :: rest => answerFir rest
     | ["vbs"] :: rest => answerVbs rest
     | _ => none
